@@ -199,7 +199,7 @@ def coq_make(targets, timeout=1500):
     """full .vo build of the given targets (never -vos); returns (ok, output)"""
     import mkproject
     mkproject.main()
-    rc, out = sh(["timeout", str(timeout), "make", "-j%d" % NPROC] + targets, cwd=COQ)
+    rc, out = sh(["timeout", str(timeout), "make", "-j%d" % NPROC, "COQC=timeout 900 coqc"] + targets, cwd=COQ)   # per-file cap: a runaway tactic must not eat the whole budget
     return rc == 0, out
 
 
